@@ -139,6 +139,8 @@ def grid_modules():
             out.append(('hoist_str_in_function.L%d.k%d' % (L, k), 'hoist_literals', 'def h():\n    return [%s]\n' % ', '.join([lit] * k)))
             out.append(('hoist_str_in_function_compound.L%d.k%d' % (L, k), 'hoist_literals', 'def h():\n    if g():\n        return [%s]\n' % ', '.join([lit] * k)))
             out.append(('hoist_str_in_method_compound.L%d.k%d' % (L, k), 'hoist_literals', 'class C:\n    def m(self):\n        for i in g():\n            return [%s]\n' % ', '.join([lit] * k)))
+            out.append(('hoist_str_after_keyword.L%d.k%d' % (L, k), 'hoist_literals', 'def h(a):\n' + ''.join('    if a == %d:\n        return %s\n' % (i, lit) for i in range(k))))
+            out.append(('hoist_str_between_keywords.L%d.k%d' % (L, k), 'hoist_literals', 'def h(a):\n    return [%s]\n' % ', '.join(['%s if a else %s' % (lit, lit)] * ((k + 1) // 2))))
             out.append(('hoist_bytes.L%d.k%d' % (L, k), 'hoist_literals', 'f([%s])\n' % ', '.join(['b' + lit] * k)))
     for k in range(1, 9):
         for c in ('None', 'True', 'False'):
